@@ -10,8 +10,14 @@ ops (every string token is hex of its UTF-8 bytes; lists are comma separated; `-
   grpcs <ip> <fullmethod>        -> ip | func | ok               (server streaming; loopback released)
   eth <ip>                       -> 0 | 1
   ipmain <ip>                    -> 0 | 1
-ip:   v4:a.b.c.d | m4:a.b.c.d | lo6 | v6:<hex text>
+  jbody <ip> <cred> <body>       -> ip | auth | parse | func | ok:<probe that ran or ->
+                                    (gate decodes the members into clientRequest, the codec into serverRequest)
+  grpca <ip> <cred> <fullmethod> -> ip | func | ok               (unary call carrying basic-auth metadata)
+  ipadd <whitelist> <whitlist>   -> ok      (a further InitIPWhitelist on the same package map, no reset)
+  ipmain2 <ip>                   -> 0 | 1   (checkIPWhitelist against the accumulated map)
+ip:   v4:a.b.c.d | m4:a.b.c.d | lo6 | v6:<hex text containing ':'>
 cred: - | <hexuser>:<hexpass>
+body: null | other | o{;<hexkey>=<val>}    val: s<hex> | n | u<dec> | a | x
 -/
 
 def str? (h : String) : Option String := do
@@ -30,8 +36,43 @@ def ip? (s : String) : Option IP :=
   if s == "lo6" then some .lo6
   else if s.startsWith "v4:" then (quad? (s.drop 3).toString).map fun (a, b, c, d) => .v4 a b c d
   else if s.startsWith "m4:" then (quad? (s.drop 3).toString).map fun (a, b, c, d) => .mapped a b c d
-  else if s.startsWith "v6:" then (str? (s.drop 3).toString).map IP.v6
+  else if s.startsWith "v6:" then
+    match (str? (s.drop 3).toString).map (·.splitOn ":") with
+    | some (pre :: p :: rest) => some (.v6 pre (":".intercalate (p :: rest)))
+    | _ => none
   else none
+
+def jv? (s : String) : Option JV :=
+  if s == "n" then some .null
+  else if s == "a" then some .arr
+  else if s == "x" then some .other
+  else if s.startsWith "u" then (s.drop 1).toString.toNat?.map JV.uint
+  else if s.startsWith "s" then (str? (s.drop 1).toString).map JV.str
+  else none
+
+def member? (s : String) : Option (String × JV) :=
+  match s.splitOn "=" with
+  | [k, v] => do
+      let k ← str? k
+      let v ← jv? v
+      pure (k, v)
+  | _ => none
+
+def body? (s : String) : Option Body :=
+  if s == "null" then some .null
+  else if s == "other" then some .other
+  else match s.splitOn ";" with
+    | "o" :: ms => (ms.mapM member?).map Body.obj
+    | _ => none
+
+/-- receiver methods registered on the harness's JSON-RPC server (`net/rpc` looks names up exactly). -/
+def probeOf (m : String) : String :=
+  if m == "Probe.Ping" then "Ping" else if m == "Probe.Secret" then "Secret"
+  else if m == "Probe.CloseQueue" then "CloseQueue" else if m == "Probe.Version" then "Version" else "-"
+
+structure DS where
+  c : Cfg := {}
+  ipS : List String := ipSet {}
 
 def cred? (s : String) : Option Cred :=
   if s == "-" then some .none else
@@ -40,6 +81,34 @@ def cred? (s : String) : Option Cred :=
       let u ← (if u == "" then some "" else str? u)
       let p ← (if p == "" then some "" else str? p)
       pure (.pair u p)
+  | _ => none
+
+def stepC (ds : DS) (line : String) : Option String :=
+  let c := ds.c
+  match words line with
+  | ["jbody", ip, cr, b] =>
+    match ip? ip, cred? cr, body? b with
+    | some ip, some cr, some b =>
+      let r := if !mainIPAdmit c ip then "ip" else if !authOk c cr then "auth"
+               else match gateMethod b with
+                 | none => "parse"
+                 | some g => if !(ip.isLoopback || jFuncOk c (lastSeg g '.')) then "func" else "ok"
+      let served := jrpcServes c ip cr b
+      if (r == "ok") != served.isSome then some "model-inconsistent"
+      else match served with
+        | some m => some ("ok:" ++ (if dispatchHasParams b then probeOf m else "-"))
+        | none => some r
+    | _, _, _ => some "bad-op"
+  | ["grpca", ip, cr, m] =>
+    match ip? ip, cred? cr, str? m with
+    | some ip, some cr, some m =>
+      let r := if !mainIPAdmit c ip then "ip" else if !gFuncOk c (lastSeg m '/') then "func" else "ok"
+      some (if (r == "ok") == grpcUnaryReachesCred c ip cr m then r else "model-inconsistent")
+    | _, _, _ => some "bad-op"
+  | ["ipmain2", ip] =>
+    match ip? ip with
+    | some ip => some (if ipAdmitS ds.ipS ip then "1" else "0")
+    | none => some "bad-op"
   | _ => none
 
 def step (c : Cfg) (line : String) : Cfg × String :=
@@ -80,5 +149,19 @@ def step (c : Cfg) (line : String) : Cfg × String :=
     | none => (c, "bad-op")
   | _ => (c, "bad-op")
 
+def stepDS (ds : DS) (line : String) : DS × String :=
+  match words line with
+  | ["ipadd", a, b] =>
+    match strList? a, strList? b with
+    | some a, some b => ({ ds with ipS := ipAdd ds.ipS { whitelist := a, whitlist := b } }, "ok")
+    | _, _ => (ds, "bad-op")
+  | _ =>
+    match stepC ds line with
+    | some o => (ds, o)
+    | none =>
+      let (c', o) := step ds.c line
+      let isCfg := (words line).head? == some "cfg" && o == "ok"
+      ({ c := c', ipS := if isCfg then ipSet c' else ds.ipS }, o)
+
 def main : IO Unit := do
-  loopState (← IO.getStdin) (← IO.getStdout) step {}
+  loopState (← IO.getStdin) (← IO.getStdout) stepDS {}
